@@ -135,6 +135,24 @@ func init() {
 					emit("LE", "2", strconv.Itoa(v))
 				}
 			}
+			// stateful builder histories: SetEpoch / SetLamport / SetID / Build on ONE builder
+			for i := 0; i < n/8+20; i++ {
+				toks := []string{"IDSEQ"}
+				for j, m := 0, 2+r.Intn(8); j < m; j++ {
+					toks = append(toks, ";")
+					switch r.Intn(4) {
+					case 0:
+						toks = append(toks, "E", vu.U64(c32Interesting(r, 4)))
+					case 1:
+						toks = append(toks, "L", vu.U64(c32Interesting(r, 4)))
+					case 2:
+						toks = append(toks, "S", vu.Hex(c32tail(r)))
+					default:
+						toks = append(toks, "B", vu.Hex(c32tail(r)))
+					}
+				}
+				emit(toks...)
+			}
 			for i := 0; i < n; i++ {
 				k := ks[r.Intn(3)]
 				switch r.Intn(6) {
@@ -185,6 +203,32 @@ func init() {
 				return me.ID()
 			}
 			switch in[0] {
+			case "IDSEQ":
+				me := &dag.MutableBaseEvent{}
+				var out []string
+				for i := 1; i < len(in); i++ {
+					if in[i] != ";" {
+						continue
+					}
+					var tail [24]byte
+					switch in[i+1] {
+					case "E":
+						me.SetEpoch(idx.Epoch(pu(in[i+2])))
+					case "L":
+						me.SetLamport(idx.Lamport(pu(in[i+2])))
+					case "S":
+						copy(tail[:], vu.UnHex(in[i+2]))
+						me.SetID(tail)
+						id := me.ID()
+						out = append(out, vu.Hex(id.Bytes()), vu.U64(uint64(id.Epoch())), vu.U64(uint64(id.Lamport())))
+					case "B":
+						copy(tail[:], vu.UnHex(in[i+2]))
+						id := me.Build(tail).ID()
+						out = append(out, vu.Hex(id.Bytes()), vu.U64(uint64(id.Epoch())), vu.U64(uint64(id.Lamport())))
+					}
+				}
+				vu.Stat("idseq")
+				return out
 			case "BE":
 				k, _ := strconv.Atoi(in[1])
 				n := pu(in[2])
